@@ -21,16 +21,18 @@ Proof.
   by apply bool_decide_eq_true in H.
 Qed.
 
-Lemma check_order_complete d1 d2 ns : check_order true d1 d2 ns = true -> d1 ⊆ list_to_set ns.
+Lemma check_order_complete d1 d2 ns : check_order true d1 d2 ns = true -> d1 ∪ d2 ⊆ list_to_set ns.
 Proof.
   unfold check_order. intros H.
   repeat match goal with H : _ && _ = true |- _ => apply andb_true_iff in H as [H ?] end.
   simpl in *.
   repeat match goal with H : _ && _ = true |- _ => apply andb_true_iff in H as [H ?] end.
   repeat match goal with H : bool_decide _ = true |- _ => apply bool_decide_eq_true in H end.
-  intros x Hx.
-  match goal with H : list_to_set (filter _ ns) = d1 |- _ => rewrite <- H in Hx end.
-  apply elem_of_list_to_set in Hx. apply elem_of_list_filter in Hx as [_ Hx]. by apply elem_of_list_to_set.
+  intros x Hx. apply elem_of_union in Hx as [Hx|Hx].
+  - match goal with H : list_to_set (filter _ ns) = d1 |- _ => rewrite <- H in Hx end.
+    apply elem_of_list_to_set in Hx. apply elem_of_list_filter in Hx as [_ Hx]. by apply elem_of_list_to_set.
+  - match goal with H : list_to_set (filter _ ns) = d2 |- _ => rewrite <- H in Hx end.
+    apply elem_of_list_to_set in Hx. apply elem_of_list_filter in Hx as [_ Hx]. by apply elem_of_list_to_set.
 Qed.
 
 Lemma acc_local s s' k k' m :
@@ -47,7 +49,7 @@ Qed.
 
 Lemma try_updates_V a k s s' k' ev f :
   try_updates true a k s = Some (s', k', ev, f) -> WF s -> knorm k -> V s k -> s_must s = ∅ ->
-  V s' k' ∧ knorm k' ∧ (f = false → s_must s' = ∅).
+  V s' k' ∧ knorm k' ∧ (f = false → s_must s' = ∅ ∧ dirty1 s' ∪ dirty2 s' = ∅).
 Proof.
   intros H Hs Hn Hv Hm. unfold try_updates in H. case_bool_decide as Hdirty.
   { repeat case_match; simplify_eq. done. }
@@ -108,7 +110,29 @@ Proof.
     { intros M HM. destruct (Hns M HM) as (_ & _ & Ho). by destruct (Hg M Ho). }
     assert ((run_script k script 0 (a_inj a)).2 = false) as Hrun by (by rewrite Erun).
     pose proof (wb_exact _ _ _ _ _ _ Ewb Hs Hnd Hacc Hrun) as Hex. fold script in Hex. rewrite Erun in Hex. cbn [fst snd] in Hex.
-    split; [|split; [done|done]].
+    split; [|split; [done|]]; cycle 1.
+    { intros _. split; [done|].
+      assert (dirty1 (set_dirty (λ _, ∅) s1) = ∅) as -> by (unfold dirty1; simpl; set_solver).
+      assert (pending_meta (set_dirty (λ _, ∅) s1) = ∅) as Hpm; [|unfold dirty2; rewrite Hpm; set_solver].
+      apply elem_of_equiv_empty_L. intros x Hx. unfold pending_meta in Hx. apply elem_of_filter in Hx as [Hnm Hdom].
+      simpl in Hdom. rewrite B1 in Hdom. apply elem_of_dom in Hdom as [mx Hmx].
+      unfold needs_meta in Hnm. simpl in Hnm. rewrite B1, Hmx in Hnm.
+      apply negb_true_iff, bool_decide_eq_false in Hnm. apply Hnm. clear Hnm.
+      destruct (decide (x ∈ ns)) as [Hin|Hnin].
+      - destruct (Hex x Hin) as (dm & md & E1 & E2 & _). congruence.
+      - assert (is_temp x = false) as Ht.
+        { destruct (wf_des _ Hs x) as [E0 _]; [eauto|]. unfold is_temp. by rewrite E0. }
+        destruct (B3 x Hnin Ht) as [-> _].
+        destruct (decide (needs_meta s x = true)) as [Hnm|Hnm].
+        + exfalso. apply Hnin.
+          assert (x ∈ pending_meta s) as Hpm by (unfold pending_meta; apply elem_of_filter; split; [done|apply elem_of_dom; eauto]).
+          assert (x ∈ dirty1 s ∪ dirty2 s) as Hz.
+          { destruct (decide (x ∈ s_dirty s)); [apply elem_of_union_l|apply elem_of_union_r].
+            - unfold dirty1. apply elem_of_intersection. split; [done|]. apply elem_of_dom; eauto.
+            - unfold dirty2. set_solver. }
+          apply Hd1 in Hz. by apply elem_of_list_to_set in Hz.
+        + apply not_true_is_false in Hnm. unfold needs_meta in Hnm. rewrite Hmx in Hnm.
+          by apply negb_false_iff, bool_decide_eq_true in Hnm. }
     intros m Ho. right; right. destruct (decide (m ∈ ns)) as [Hin|Hnin].
     + destruct (Hex m Hin) as (dm & md & E1 & E2 & E3 & E4). destruct (Hns m Hin) as (_ & Ht & _).
       split.
@@ -122,7 +146,8 @@ Proof.
       * destruct (B3 m Hnin Ht) as [_ ->]. intros d p Hdes' Htrk Hne. exfalso.
         specialize (Hd d p Hdes' Htrk Hne). apply Hnin.
         assert (m ∈ dirty1 s) as Hd1' by (unfold dirty1; apply elem_of_intersection; split; [done|by apply elem_of_dom]).
-        apply Hd1 in Hd1'. by apply elem_of_list_to_set in Hd1'.
+        assert (m ∈ dirty1 s ∪ dirty2 s) as Hd1'' by set_solver.
+        apply Hd1 in Hd1''. by apply elem_of_list_to_set in Hd1''.
 Qed.
 
 (* ---------------------------------------------------------------- the retry loop, ApplyDeletions *)
@@ -155,7 +180,7 @@ Proof.
   assert (s_must s2 = ∅) as M2' by (rewrite M1 in M2; set_solver).
   destruct (try_updates true a k2 s2) as [[[[s3 k3] ev3] f3]|] eqn:E3; [|done].
   destruct (try_updates_good _ _ _ _ _ _ _ _ E3 (proj1 G2)) as (G3 & _ & _).
-  destruct (try_updates_V _ _ _ _ _ _ _ E3 (proj1 G2) N2 V2 M2') as (V3 & N3 & _).
+  destruct (try_updates_V _ _ _ _ _ _ _ E3 (proj1 G2) N2 V2 M2') as (V3 & N3 & D3).
   destruct f3.
   - set (s4 := if Nat.leb (MaxRetryAttempt / 2) att then set_full true s3 else s3) in *.
     assert (J s4 k3) as J4.
@@ -276,7 +301,7 @@ Qed.
 
 (* ---------------------------------------------------------------- every history (kernel changed by Felix only) *)
 Inductive reachF : st → kernel → gmap N (meta * gset member) → Prop :=
-| f_init k0 : knorm k0 → reachF init_st k0 ∅
+| f_init k0 b : knorm k0 → reachF (set_fix2 b init_st) k0 ∅
 | f_add s k D id m ms : reachF s k D → reachF (add_or_replace id m ms s) k (<[id := (m, ms)]> D)
 | f_remove s k D id : reachF s k D → reachF (remove_ipset id s) k (delete id D)
 | f_change s k D add id ms :
@@ -298,7 +323,7 @@ Lemma reachF_J s k D : reachF s k D -> J s k.
 Proof.
   intros H. pose proof (reachF_reach _ _ _ H) as Hr. destruct (reach_inv _ _ _ _ Hr) as [W _].
   split; [done|]. clear W Hr.
-  induction H as [k0 Hk|s k D id m ms H IH|s k D id H IH|s k D add id ms H IH|s k D H IH
+  induction H as [k0 b Hk|s k D id m ms H IH|s k D id H IH|s k D add id ms H IH|s k D H IH
                  |s k D obs budget s' k' ev H IH Hu|s k D tries s' k' ev rs H IH Hd].
   - split; [done|by left].
   - destruct IH as [Hn Hv]. split; [done|]. destruct Hv as [Hf|Hv]; [left|right; by apply V_add_or_replace].
@@ -379,3 +404,99 @@ Proof.
 Qed.
 Lemma fk_quiet : quietb (d_s fk_r6) = true.
 Proof. vm_compute. reflexivity. Qed.
+
+(* ---------------------------------------------------------------- what a successful ApplyUpdates leaves *)
+Lemma apply_updates_loop_done obs : ∀ att budget k s s' k' ev,
+  apply_updates_loop true obs att budget k s = Some (s', k', ev) -> J s k ->
+  s_panic s' = true ∨ (s_full s' = false ∧ s_must s' = ∅ ∧ dirty1 s' ∪ dirty2 s' = ∅).
+Proof.
+  induction obs as [|a rest IH]; intros att budget k s s' k' ev H (Hs & Hn & Hv); [done|].
+  cbn [apply_updates_loop] in H.
+  destruct (if s_full s || s_bgreq s || negb (rq_empty s) then try_resync k (a_resync a) budget s
+             else match a_resync a with [] => Some (s, budget) | _ => None end) as [[s1 b1]|] eqn:E1; [|done].
+  assert (good s s1 ∧ V s1 k ∧ s_must s1 = ∅) as (G1 & V1 & M1).
+  { revert E1. destruct (s_full s || s_bgreq s || negb (rq_empty s)) eqn:Ec; intros E1.
+    - split; [eapply good_try_resync; [exact E1|exact Hs]|]. eapply V_try_resync; [exact E1|done|done|done].
+    - destruct (a_resync a); [|done]. simplify_eq.
+      apply orb_false_iff in Ec as [Ec Ee]. apply orb_false_iff in Ec as [Ef _].
+      apply negb_false_iff in Ee. unfold rq_empty in Ee. apply andb_true_iff in Ee as [Ee _].
+      apply bool_decide_eq_true in Ee.
+      split; [done|]. split; [|done]. destruct Hv as [?|?]; [congruence|done]. }
+  destruct (del_pass true (a_tmpdel a) ∅ k s1) as [[[[s2 k2] ev2] c2]|] eqn:E2; [|done].
+  destruct (del_pass_good _ _ _ _ _ _ _ _ _ E2 (proj1 G1)) as (G2 & _ & _).
+  destruct (del_pass_V _ _ _ _ _ _ _ _ _ E2 (proj1 G1) Hn V1) as (V2 & N2 & M2).
+  assert (s_must s2 = ∅) as M2' by (rewrite M1 in M2; set_solver).
+  destruct (try_updates true a k2 s2) as [[[[s3 k3] ev3] f3]|] eqn:E3; [|done].
+  destruct (try_updates_good _ _ _ _ _ _ _ _ E3 (proj1 G2)) as (G3 & _ & _).
+  destruct (try_updates_V _ _ _ _ _ _ _ E3 (proj1 G2) N2 V2 M2') as (V3 & N3 & D3).
+  destruct f3.
+  - set (s4 := if Nat.leb (MaxRetryAttempt / 2) att then set_full true s3 else s3) in *.
+    assert (J s4 k3) as J4.
+    { subst s4. destruct (Nat.leb _ _).
+      - split; [apply good_set_full, G3|]. split; [done|]. right. eapply V_fields; [..|exact V3]; done.
+      - split; [apply G3|]. split; [done|]. by right. }
+    destruct (Nat.eqb (S att) MaxRetryAttempt).
+    + destruct rest; [|done]. simplify_eq. by left.
+    + destruct (apply_updates_loop true rest (S att) b1 k3 s4) as [[[s5 k5] ev5]|] eqn:E5; [|done]. simplify_eq.
+      eapply IH; done.
+  - destruct rest; [|done]. simplify_eq. right. destruct (D3 eq_refl) as [Dm Dd]. done.
+Qed.
+
+Lemma del_pass_desired t tries : ∀ dn k s s' k' ev c,
+  del_pass t tries dn k s = Some (s', k', ev, c) ->
+  s_dirty s' = s_dirty s ∧ s_des s' = s_des s ∧ ∀ n, is_Some (s_des s !! n) → s_dp s' !! n = s_dp s !! n.
+Proof.
+  induction tries as [|[n inj] rest IH]; intros dn k s s' k' ev c H; simpl in H.
+  - case_bool_decide; [|done]. by simplify_eq.
+  - destruct (bool_decide (n ∈ _) && _) eqn:Hel; [|done].
+    apply andb_true_iff in Hel as [Hel _]. apply bool_decide_eq_true in Hel.
+    apply elem_of_filter in Hel as [_ Hpd]. unfold pending_del in Hpd.
+    apply elem_of_difference in Hpd as [_ Hdes]. apply not_elem_of_dom in Hdes.
+    destruct (if inj then None else exec k (CDestroy n)) as [k1|].
+    + destruct rest; [|done]. simplify_eq.
+      assert (∀ x, is_Some (s_des s !! x) → x ≠ n) as Hne by (intros x [? Hx] ->; congruence).
+      destruct t; simpl; (split; [done|]; split; [done|]; intros x Hx; by rewrite lookup_delete_ne by (by apply not_eq_sym, Hne)).
+    + set (s1 := if t then s else match s_dp s !! n with Some (m, (_, lf)) => set_dp <[n:=(m, (true, lf))]> s | None => s end) in *.
+      destruct (del_pass t rest ({[n]} ∪ dn) k s1) as [[[[s2 k2] ev2] c2]|] eqn:Er; [|done]. simplify_eq.
+      destruct (IH _ _ _ _ _ _ _ Er) as (A1 & A2 & A3).
+      assert (s_dirty s1 = s_dirty s ∧ s_des s1 = s_des s ∧ ∀ x, x ≠ n → s_dp s1 !! x = s_dp s !! x) as (B1 & B2 & B3).
+      { subst s1. destruct t; [done|]. destruct (s_dp s !! n) as [[m [df lf]]|]; [|done]. simpl.
+        split; [done|]. split; [done|]. intros x Hx. by rewrite lookup_insert_ne. }
+      split; [congruence|]. split; [congruence|]. intros x Hx.
+      rewrite A3 by (by rewrite B2). apply B3. intros ->. destruct Hx as [? Hx]. congruence.
+Qed.
+
+Lemma dirty_same s s' :
+  s_dirty s' = s_dirty s -> s_des s' = s_des s -> (∀ n, is_Some (s_des s !! n) → s_dp s' !! n = s_dp s !! n) ->
+  dirty1 s' ∪ dirty2 s' = dirty1 s ∪ dirty2 s.
+Proof.
+  intros E1 E2 E3. unfold dirty1, dirty2. rewrite E1, E2.
+  assert (pending_meta s' = pending_meta s) as ->; [|done].
+  unfold pending_meta. rewrite E2. apply set_eq. intros x. rewrite !elem_of_filter.
+  assert (x ∈ dom (s_des s) → needs_meta s' x = needs_meta s x) as Hx.
+  { intros Hd. apply elem_of_dom in Hd. unfold needs_meta. rewrite E2, (E3 x Hd). done. }
+  split; intros [H1 H2]; (split; [|done]); [rewrite <- Hx|rewrite Hx]; done.
+Qed.
+
+(* c16_converges in the words of the property: after a successful ApplyUpdates and an ApplyDeletions that leave no
+   pending deletion, every owned set is exactly as desired and no other owned set remains. *)
+Lemma converges_after_apply s k D obs budget s1 k1 ev1 tries s2 k2 ev2 rs n :
+  reachF s k D ->
+  apply_updates true obs budget k s = Some (s1, k1, ev1) -> s_panic s1 = false ->
+  apply_deletions tries k1 s1 = Some (s2, k2, ev2, rs) -> pending_del s2 = ∅ ->
+  owned n = true -> k2 !! n = want_of D n.
+Proof.
+  intros Hr Hu Hp Hd Hpd Ho.
+  pose proof (reachF_J _ _ _ Hr) as J0.
+  destruct (apply_updates_loop_done _ _ _ _ _ _ _ _ Hu J0) as [?|(Hf & Hm & Hdy)]; [congruence|].
+  pose proof (apply_updates_loop_J _ _ _ _ _ _ _ _ Hu J0) as (W1 & N1 & V1).
+  destruct V1 as [?|V1]; [congruence|].
+  eapply (converges s2 k2 D n); [eapply f_deletions; [eapply f_updates; [exact Hr|exact Hu]|exact Hd]| |done].
+  unfold apply_deletions in Hd.
+  destruct (del_pass false tries ∅ k1 s1) as [[[[sx kx] evx] cx]|] eqn:E2; [|done]. simplify_eq.
+  destruct (del_pass_V _ _ _ _ _ _ _ _ _ E2 W1 N1 V1) as (_ & _ & Msub).
+  destruct (del_pass_desired _ _ _ _ _ _ _ _ _ E2) as (A1 & A2 & A3).
+  split; [by rewrite (del_pass_full _ _ _ _ _ _ _ _ _ E2)|].
+  split; [set_solver|]. split; [|done].
+  rewrite (dirty_same s1 s2 A1 A2 A3). done.
+Qed.
